@@ -296,6 +296,19 @@ def loop_oracle(case, r):
             if k < len(ann) and ann[k][2] and m_ > 0:
                 zt = ann[k][1]
                 best = max(best, max(abs(v) for v in zt[len(zt) - m_:]))
+    if r["kind"] == 2:
+        # C02: TimeLimit only after the deadline has passed — some clock reading of this run must show it (the Timer is
+        # created at the second read; exact rational arithmetic on the virtual clock)
+        from fractions import Fraction
+        tl = case["time_limit"]
+        reads = r.get("reads") or 0
+        if tl is None:
+            return "time_limit: status TimeLimit without a time limit"
+        if reads >= 2:
+            start = Fraction(case["clock"][1])
+            if all(Fraction(t) - start < Fraction(tl) for t in case["clock"][1:reads]):
+                return ("time_limit: status TimeLimit although no clock reading of the run shows the limit reached "
+                        "(largest elapsed time %r, limit %r)" % (float(max(Fraction(t) - start for t in case["clock"][1:reads])), tl))
     if r["kind"] in (0, 1, 2, 3, 4):
         # C12
         if r["iters"] != len(ann):
